@@ -1,6 +1,7 @@
 import Knut.Proofs.ImportCards
 import Knut.Proofs.ImportAccounts
 import Knut.Proofs.ImportBrokers
+import Knut.Proofs.ImportIB
 import Knut.Proofs.ImportFaithful
 /-!
 # C13 — importers turn every statement row into a valid, faithful journal entry
@@ -20,8 +21,8 @@ rows, their date / currency / signed amount, and the balances and prices the sta
 one, in order; a booking item is matched by a transaction on its date whose net effect on the import account is
 the stated amount in *every* commodity and which has at least one booking).
 
-**Proved here, for all record lists of any length and any field contents** (ten importers; the flags' accounts must
-differ from the import account, otherwise a posting pair cancels itself):
+**Proved here, for all record lists of any length and any field contents** (all eleven importers; the flags' accounts
+must differ from the import account, otherwise a posting pair cancels itself):
 
 * `C13_<importer>` — if the importer succeeds, its directives are `Faithful` to the statement: booking row ↦ exactly
   one transaction, on the row's date, with exactly the row's effect on the import account; carried balances and
@@ -34,9 +35,7 @@ differ from the import account, otherwise a posting pair cancels itself):
   (`wise_conversion_two_transactions`, `swissquote_forex_pair_one_transaction`,
   `swissquote_sale_without_proceeds_is_booked_as_purchase`, `postfinance_echo_nonempty`).
 
-**Not mechanised (partial).**
-
-* The text-level clause.  Full statement, with `parse` the parser model and `load` parser + model builder:
+**Not mechanised (partial).**  The text-level clause.  Full statement, with `parse` the parser model and `load` parser + model builder:
 
       theorem C13_output_valid (ds : List Directive) (h : ∀ d ∈ ds, wellFormed isAlphanumeric d) :
         (∃ f, Syntax.parseText "" (render ds).toUTF8.toList = .ok f) ∧
@@ -49,14 +48,11 @@ differ from the import account, otherwise a posting pair cancels itself):
   output), over free text with quotes, separators, newlines, control characters and Unicode.  The second half is
   in fact FALSE for the code as it stands (the printer replaces `"` by `'` after sorting the day's transactions by
   description): recorded finding `C13-quote-replaced-after-sorting`.
-* `us.interactivebrokers` has a row model and a specification-side reader (both executable and compared with the
-  real importer on every run) but no `Faithful` theorem yet: `C13_interactivebrokers` is missing.  Its fidelity is
-  covered by the monitors `faithful_to_spec_reader` and `faithful_to_statement` only (a test, not a proof).
 -/
 namespace Knut.C13
 open Knut Knut.Import Knut.Spec.Import Knut.Proofs.Import
 
-/-! ## The ten row theorems -/
+/-! ## The eleven row theorems -/
 
 /-- `ch.swisscard2`: every record after the header ↦ one transaction on `Transaktionsdatum` lowering the card account by `Betrag` `Währung` -/
 theorem C13_swisscard2 (acct : Account) (hacct : acct ≠ tbd) (recs : List Rec) (ds : List Directive)
@@ -109,6 +105,13 @@ shares; dividends are gross minus tax); a forex pair ↦ one transaction (see `s
 theorem C13_swissquote (a : Swissquote.Accts) (ok : AcctsOK a) (recs : List Rec) (ds : List Directive)
     (h : Swissquote.run a recs = .ok ds) : Faithful a.account (swissquote recs) ds :=
   swissquote_faithful a ok recs ds h
+
+/-- `us.interactivebrokers`: trades, deposits / withdrawals, dividends, interest and withholding tax rows ↦ one transaction
+each (amounts as the importer rounds them, see `C13-interactivebrokers-rounds-to-cents`); open positions and forex balances ↦
+balances on the last day of the statement period; every other record ↦ nothing -/
+theorem C13_interactivebrokers (a : Swissquote.Accts) (ok : AcctsOK a) (recs : List Rec) (ds : List Directive)
+    (h : IB.run a recs = .ok ds) : Faithful a.account (interactivebrokers recs) ds :=
+  interactivebrokers_faithful a ok recs ds h
 
 /-! ## What `Faithful` says, clause by clause -/
 
